@@ -9,6 +9,7 @@
   markers of its predecessors in the order.
 """
 import os
+import itertools
 import pickle
 import re
 import shutil
@@ -128,8 +129,16 @@ class VirtualPool:
     def terminate(self):
         pass
 
-    def _run(self, func, iterable):
-        tasks = [pickle.dumps((func, x)) for x in iterable]      # the process boundary
+    def _run(self, func, iterable, chunksize=1):
+        # the process boundary.  As in multiprocessing, ``chunksize`` items are TAKEN from the iterable before the batch is
+        # serialised (Pool.map takes all of them first): a generator that re-uses one buffer aliases within a batch
+        it, tasks = iter(iterable), []
+        while True:
+            batch = tuple(itertools.islice(it, max(1, int(chunksize or 1))))
+            if not batch:
+                break
+            f2, xs = pickle.loads(pickle.dumps((func, batch)))
+            tasks.extend(pickle.dumps((f2, x)) for x in xs)
         n = len(tasks)
         order = list(VirtualPool.order) if VirtualPool.order is not None else list(range(n))
         if sorted(order) != list(range(n)):
@@ -146,17 +155,19 @@ class VirtualPool:
         return order, results
 
     def imap(self, func, iterable, chunksize=1):
-        order, res = self._run(func, iterable)
+        order, res = self._run(func, iterable, chunksize)
         return iter([res[i] for i in range(len(res))])
 
     def map(self, func, iterable, chunksize=None):
-        return list(self.imap(func, iterable))
+        items = list(iterable)                        # Pool.map materialises the iterable first
+        order, res = self._run(func, items, max(1, len(items)))
+        return [res[i] for i in range(len(res))]
 
     def starmap(self, func, iterable, chunksize=None):
         return self.map(_Star(func), iterable)
 
     def imap_unordered(self, func, iterable, chunksize=1):
-        order, res = self._run(func, iterable)
+        order, res = self._run(func, iterable, chunksize)
         return iter([res[i] for i in order])
 
     def map_async(self, func, iterable, chunksize=None, callback=None, error_callback=None):
